@@ -322,7 +322,8 @@ def _rep_probes(cfg, rng):
                  for t in (np.int32, np.int16, np.int8) if M <= 64]
         if PROBE_UNSIGNED:
             small += [('%s array' % np.dtype(t).name, idx.astype(t))
-                      for t in (np.uint8, np.uint32)]
+                      for t in (np.uint8, np.uint32)
+                      if M <= np.iinfo(t).max]
         # -- modulate ------------------------------------------------------
         kinds = layout if bpsk else layout + ('list', )
         s = _probe_call(smod, m.modulate, idx, kinds, extra=small)
